@@ -217,7 +217,8 @@ func wrapBranch(name string, message profile.Message, branch BranchRegoResult, m
 		}
 		matchesLine := fmt.Sprintf("  %s := trace(\"%s\",\"%s\",%s,%s)", bindingResult, r.ConstraintId(), traceResultPath, r.TraceNode, r.TraceValue)
 		for _, l := range r.Rego {
-			if strings.Contains(l, "$message") {
+			// only embedded Rego code can define the message, any other line may contain the text as data
+			if r.Constraint == "rego" && strings.Contains(l, "$message") {
 				customMessage = true
 				l = strings.ReplaceAll(l, "$message", "message")
 			}
@@ -246,11 +247,11 @@ func wrapBranch(name string, message profile.Message, branch BranchRegoResult, m
 		}
 	}
 
-	acc = append(acc, fmt.Sprintf("  %s := error(\"%s\",%s, message ,[%s])", matchesVariable, name, mappingVariable, strings.Join(resultBindings, ",")))
+	acc = append(acc, fmt.Sprintf("  %s := error(%s,%s, message ,[%s])", matchesVariable, regoString(name), mappingVariable, strings.Join(resultBindings, ",")))
 	return acc
 }
 
+// sanitizedMessage double quotes are shown as single quotes, anything else is escaped to reach the report as written
 func sanitizedMessage(s string) string {
-	result := strings.ReplaceAll(s, "\n", "\\n")
-	return strings.ReplaceAll(result, "\"", "'")
+	return regoStringContent(strings.ReplaceAll(s, "\"", "'"))
 }
